@@ -210,14 +210,29 @@ func evalBody(p *hist.Pool, cs Case) (class, msg string) {
 // Truncate) x {Commit, Abort} and calls fn from NumCPU goroutines. It returns the number of seeds,
 // the alphabet size and whether the time guard stopped it.
 func ForEachBody(c *mc.Ctx, name string, p *hist.Pool, seedMax, bodyLen int, fn func(cs Case)) (nSeeds, nAlpha int, stopped bool) {
-	m0 := p.Methods[0]
+	// one method, except for the methods pool: its two first custom methods (their roots are created with the first
+	// route and removed with the last one, which shifts the roots behind them)
+	ms := p.Methods[:1]
+	if name == "methods" {
+		ms = p.Methods[1:3]
+	}
 	var alpha []hist.Op
-	for _, k := range []int{hist.Handle, hist.Update, hist.Delete} {
+	for _, m0 := range ms {
+		for _, k := range []int{hist.Handle, hist.Update, hist.Delete} {
+			for _, pt := range p.Patterns {
+				alpha = append(alpha, hist.Op{Kind: k, Method: m0, Pattern: pt})
+			}
+		}
+		alpha = append(alpha, hist.Op{Kind: hist.Truncate, Method: m0})
+	}
+	alpha = append(alpha, hist.Op{Kind: hist.Truncate})
+	type mp struct{ m, p string }
+	var keys []mp
+	for _, m0 := range ms {
 		for _, pt := range p.Patterns {
-			alpha = append(alpha, hist.Op{Kind: k, Method: m0, Pattern: pt})
+			keys = append(keys, mp{m0, pt})
 		}
 	}
-	alpha = append(alpha, hist.Op{Kind: hist.Truncate, Method: m0}, hist.Op{Kind: hist.Truncate})
 	var seeds [][]hist.Op
 	var rec func(start int, cur []hist.Op, m hist.Model)
 	rec = func(start int, cur []hist.Op, m hist.Model) {
@@ -225,8 +240,8 @@ func ForEachBody(c *mc.Ctx, name string, p *hist.Pool, seedMax, bodyLen int, fn 
 		if len(cur) == seedMax {
 			return
 		}
-		for i := start; i < len(p.Patterns); i++ {
-			o := hist.Op{Kind: hist.Handle, Method: m0, Pattern: p.Patterns[i]}
+		for i := start; i < len(keys); i++ {
+			o := hist.Op{Kind: hist.Handle, Method: keys[i].m, Pattern: keys[i].p}
 			out, after := hist.ModelApply(m, o)
 			if out.Err != "" {
 				continue
@@ -430,11 +445,13 @@ func run(c *mc.Ctx, r *mc.Result) {
 		add(func(r *mc.Result) { runBodies(c, r, "siblings", SiblingPool(), 3, 2) })
 		add(func(r *mc.Result) { runBodies(c, r, "nested", NestPool(), 2, 2) })
 		add(func(r *mc.Result) { runBodies(c, r, "hosts", HostPool(), 2, 2) })
+		add(func(r *mc.Result) { runBodies(c, r, "methods", MethodPool(), 2, 2) })
 	} else {
 		add(func(r *mc.Result) { runBodies(c, r, "prefixes", PoolFor(true), 3, 2) })
 		add(func(r *mc.Result) { runBodies(c, r, "siblings", SiblingPool(), 4, 2) })
 		add(func(r *mc.Result) { runBodies(c, r, "nested", NestPool(), 3, 2) })
 		add(func(r *mc.Result) { runBodies(c, r, "hosts", HostPool(), 3, 2) })
+		add(func(r *mc.Result) { runBodies(c, r, "methods", MethodPool(), 3, 2) })
 		add(func(r *mc.Result) { runBodies(c, r, "nested", NestPool(), 2, 3) })
 		add(func(r *mc.Result) { runBodies(c, r, "siblings", SiblingPool(), 2, 3) })
 	}
